@@ -3,20 +3,67 @@
 mod cksum;
 mod kernels;
 mod sx;
+mod t_xsdt;
+mod t_mcfg;
+mod t_madt;
+mod t_srat;
+mod t_slit;
+mod t_hmat;
+mod t_pptt;
+mod t_rhct;
+mod t_rimt;
+mod t_viot;
+mod t_cedt;
+mod t_hest;
+mod t_rqsc;
+mod t_tpm2;
+mod t_tpmserver;
+mod t_tpmclient;
+mod t_fadt;
+mod t_bert;
+mod t_spcr;
+mod t_facs;
+mod t_rsdp;
+mod t_sdt;
+mod tcommon;
 
 use std::io::{BufRead, Write};
 use sx::*;
 
 fn run_component(comp: u64, case: &Sx) -> Vec<Ev> {
+    // observations made before a refusal are kept; the refusal itself is the last event
+    let mut out: Vec<Ev> = Vec::new();
     let r = std::panic::catch_unwind(std::panic::AssertUnwindSafe(|| match comp {
-        1 => cksum::run(case),
-        2..=6 => kernels::run(comp, case),
+        1 => out.extend(cksum::run(case)),
+        2..=6 => out.extend(kernels::run(comp, case)),
+        10 => t_xsdt::run(case, &mut out),
+        11 => t_mcfg::run(case, &mut out),
+        12 => t_madt::run(case, &mut out),
+        13 => t_srat::run(case, &mut out),
+        14 => t_slit::run(case, &mut out),
+        15 => t_hmat::run(case, &mut out),
+        16 => t_pptt::run(case, &mut out),
+        17 => t_rhct::run(case, &mut out),
+        18 => t_rimt::run(case, &mut out),
+        19 => t_viot::run(case, &mut out),
+        20 => t_cedt::run(case, &mut out),
+        21 => t_hest::run(case, &mut out),
+        22 => t_rqsc::run(case, &mut out),
+        23 => t_tpm2::run(case, &mut out),
+        24 => t_tpmserver::run(case, &mut out),
+        25 => t_tpmclient::run(case, &mut out),
+        26 => t_fadt::run(case, &mut out),
+        27 => t_bert::run(case, &mut out),
+        28 => t_spcr::run(case, &mut out),
+        29 => t_facs::run(case, &mut out),
+        30 => t_rsdp::run(case, &mut out),
+        31 => t_sdt::run(case, &mut out),
         _ => panic!("harness: unknown component {}", comp),
     }));
-    match r {
-        Ok(v) => v,
-        Err(_) => vec![Ev::Panic],
+    if r.is_err() {
+        out.push(Ev::Panic);
     }
+    out
 }
 
 fn emit_line(out: &mut dyn Write, comp: u64, case: &Sx, evs: &[Ev]) {
@@ -178,6 +225,52 @@ fn classify(_prop: u32, comp: u64, case: &Sx, _evs: &[Ev]) -> Vec<String> {
     v
 }
 
+/// which table components a property exercises (their generators are shared between properties)
+fn table_gens(prop: u32, tier: &str, rng: &mut Rng, emit: &mut Emit) {
+    let only: Option<u64> = std::env::var("HARNESS_ONLY").ok().and_then(|s| s.parse().ok());
+    let comps: &[u64] = match prop {
+        1 | 2 | 4 => &[10, 11, 12, 13, 14, 15, 16, 17, 18, 19, 20, 21, 22, 23, 24, 25, 26, 27, 28, 29, 30, 31],
+        3 => &[10, 11, 12, 13, 14, 15, 16, 17, 18, 19, 20, 21, 22],
+        5 => &[16, 17, 18, 19],
+        11 => &[12, 13, 15, 16, 18, 19, 20, 21, 24, 26],
+        12 => &[14, 15],
+        13 => &[31],
+        _ => &[],
+    };
+    for c in comps {
+        if let Some(o) = only {
+            if o != *c {
+                continue;
+            }
+        }
+        match c {
+            10 => t_xsdt::gen(tier, rng, emit),
+            11 => t_mcfg::gen(tier, rng, emit),
+            12 => t_madt::gen(tier, rng, emit),
+            13 => t_srat::gen(tier, rng, emit),
+            14 => t_slit::gen(tier, rng, emit),
+            15 => t_hmat::gen(tier, rng, emit),
+            16 => t_pptt::gen(tier, rng, emit),
+            17 => t_rhct::gen(tier, rng, emit),
+            18 => t_rimt::gen(tier, rng, emit),
+            19 => t_viot::gen(tier, rng, emit),
+            20 => t_cedt::gen(tier, rng, emit),
+            21 => t_hest::gen(tier, rng, emit),
+            22 => t_rqsc::gen(tier, rng, emit),
+            23 => t_tpm2::gen(tier, rng, emit),
+            24 => t_tpmserver::gen(tier, rng, emit),
+            25 => t_tpmclient::gen(tier, rng, emit),
+            26 => t_fadt::gen(tier, rng, emit),
+            27 => t_bert::gen(tier, rng, emit),
+            28 => t_spcr::gen(tier, rng, emit),
+            29 => t_facs::gen(tier, rng, emit),
+            30 => t_rsdp::gen(tier, rng, emit),
+            31 => t_sdt::gen(tier, rng, emit),
+            _ => {}
+        }
+    }
+}
+
 fn main() {
     std::panic::set_hook(Box::new(|info| {
         // harness bugs must be loud; crate refusals are silent
@@ -205,6 +298,7 @@ fn main() {
                 9 => kernels::gen_c09(tier, &mut rng, &mut emit),
                 16 => kernels::gen_c16(tier, &mut rng, &mut emit),
                 17 => cksum::gen(tier, &mut rng, &mut emit),
+                1 | 2 | 3 | 4 | 5 | 11 | 12 | 13 => table_gens(prop, tier, &mut rng, &mut emit),
                 _ => panic!("harness: no generator for property {}", prop),
             }
             let stats = emit.stats;
